@@ -50,14 +50,13 @@ class C28(Prop):
                     lost[e] = (o[0], r)
             elif o[0] == "Register" and o[1] not in pr and o[1] in lost:
                 how, r = lost.pop(o[1])
-                if r is not None:
-                    cur = {e: rr for e, rr in v[0]}.get(o[1])
-                    ev.append((how, o[1], r, cur))
+                cur = {e: rr for e, rr in v[0]}.get(o[1])
+                ev.append((how, o[1], r, cur))
             prev = v
         return ev
 
     def nontrivial(self, case, obs):
-        return len(self._events(case, obs)) > 0
+        return any(e[2] is not None for e in self._events(case, obs))
 
     def kind(self, case, obs):
         ev = self._events(case, obs)
